@@ -60,6 +60,29 @@ DECOR = {
 }
 
 
+def out_pieces(s):
+    """What the command of statement s prints (scenario field outp), as a list of byte strings (latin-1 text), one per write."""
+    r = []
+    for k, p in enumerate(s.get("outp", []), 1):
+        if p == "mark":
+            r.append("<out %d.%d>" % (s["id"], k))
+        elif p == "nl":
+            r.append("\n")
+        elif p == "nul":
+            r.append("a\0b")
+        elif p == "ansi":
+            r.append("\x1b[31mred\x1b[0m")
+        elif p == "cr":
+            r.append("x\ry")
+        elif p == "long":
+            r.append("L" * 70000)      # more than a pipe buffer
+        elif p == "bracket":
+            r.append("[9/9] looks like a status line")
+        elif p == "failed":
+            r.append("FAILED: not really")
+    return r
+
+
 def cmd_text(s, cmd, ctl):
     """The command line of statement s exactly as ninja evaluates it (without $out of trap commands)."""
     d = DECOR.get(s.get("decor", ""), "")
@@ -184,6 +207,7 @@ class Execution:
         self.nfile = 0
         self.announced = set()
         self.pids = {}
+        self.printed = {}
         self._index()
 
     def _index(self):
@@ -416,6 +440,8 @@ class Execution:
         self.events.append({"e": "Invoke", "targets": step["targets"], "j": j, "k": k, "dry": bool(step.get("dry")), "tok": tok,
                             "fail": step.get("fail", []), "intr": intr, "editrun": bool(step.get("editrun")), "tree": self.tree()})
         self.events.append({"e": "Loaded", "blog": [], "dlog": [], "warn": ""})
+        if step.get("printer"):
+            self.events.append({"e": "Printer", "mode": "h2", "verbose": False})
         req = os.path.join(self.ctl, "req")
         trace = os.path.join(self.ctl, "trace")
         for pth in (req, trace):
@@ -479,8 +505,8 @@ class Execution:
             def stage_file(content):
                 self.nfile += 1
                 pth = os.path.join(stage, "f%d" % self.nfile)
-                with open(pth, "w") as fh:
-                    fh.write(content if isinstance(content, str) else json.dumps(content))
+                with open(pth, "wb") as fh:
+                    fh.write((content if isinstance(content, str) else json.dumps(content)).encode("latin-1", "replace"))
                 return pth
             code = f["code"] if f else 0
             wrote = []
@@ -509,14 +535,26 @@ class Execution:
                 lines.append(("e " if piece.get("err") else "o ") + stage_file(piece["t"]))
                 if piece.get("pause"):
                     lines.append("p %d" % piece["pause"])
+            printed = "".join(piece["t"] for piece in step.get("print", {}).get(str(sid), []))
+            if s["deps"] == "msvc" and not f:
+                printed = "".join("Note: including file: %s\n" % h for h in s["hdrs"]) + printed
             if f:
-                lines.append("e " + stage_file("command failed\n"))
+                lines.append("e " + stage_file("command failed (e%d)\n" % sid))
+                printed += "command failed (e%d)\n" % sid
+            # the statement's own output: pieces written alternately to stdout and stderr, with pauses in between
+            for k, piece in enumerate(out_pieces(s)):
+                lines.append(("e " if k % 2 else "o ") + stage_file(piece))
+                if k % 3 == 1:
+                    lines.append("p 2")
+                printed += piece
+            info["printed"] = printed
             lines.append("x %d" % code)
             go = os.path.join(self.ctl, "go.e%d" % sid)
             fd = os.open(go, os.O_WRONLY)
             os.write(fd, ("\n".join(lines) + "\n").encode())
             os.close(fd)
             pending_done[sid] = (code, wrote)
+            self.printed[sid] = printed
 
         def on_start(sid):
             nonlocal started_n
@@ -549,7 +587,9 @@ class Execution:
                 pu[self.by_id[r]["pool"]] = pu.get(self.by_id[r]["pool"], 0) + 1
             self.events.append({"e": "Start", "s": sid, "t": self.now_stamp(), "read": read, "rsp": rspseen, "dirs": dirs, "run": run_ids(),
                                 "pools": [{"p": p_, "n": n_} for p_, n_ in sorted(pu.items())],
-                                "fifo": self.fifo_count(jf) if tok >= 0 else -1})
+                                "fifo": self.fifo_count(jf) if tok >= 0 else -1,
+                                "console": s["pool"] == "console", "cmd": cmd_text(s, self.vcmd, self.ctl) + (" --trap 60 " + " ".join(s["outs"]) if s.get("trap") else ""),
+                                "desc": "E%d%s" % (s["id"], (" " + DECOR[s["decor"]]) if s.get("decor") else ""), "outs": "".join(o + " " for o in s["outs"])})
             for er in step.get("editrun", []):
                 if er["k"] == started_n:
                     f = er["f"]
@@ -567,7 +607,7 @@ class Execution:
                     wl.append({"n": o, "m": ("ns", ns)})
                 except FileNotFoundError:
                     pass   # e.g. the depfile, already consumed by ninja
-            self.events.append({"e": "Done", "s": sid, "code": code, "wrote": wl, "t": self.now_stamp(), "run": run_ids()})
+            self.events.append({"e": "Done", "s": sid, "code": code, "wrote": wl, "t": self.now_stamp(), "run": run_ids(), "out": self.printed.get(sid, "")})
 
         while True:
             if time.time() > deadline:
@@ -630,7 +670,8 @@ class Execution:
                                         pass
                             else:
                                 try:
-                                    os.kill(self.pids.get(r, 0), signal.SIGKILL)
+                                    if self.pids.get(r, 0) > 0:
+                                        os.kill(self.pids[r], signal.SIGKILL)
                                 except (ProcessLookupError, PermissionError):
                                     pass
                                 self._wait_gone(self.pids.get(r, 0))
@@ -706,7 +747,7 @@ class Execution:
                 st = open("/proc/%d/stat" % pid).read().split()[2]
                 if st == "Z":
                     return
-            except (FileNotFoundError, IndexError):
+            except (OSError, IndexError):     # the process vanished while /proc was read (ESRCH)
                 return
             time.sleep(0.002)
 
